@@ -123,6 +123,14 @@ class Ctx:
              "depth": res.depth, "wall_s": round(res.wall_s, 2), "mode": res.mode}
         )
 
+        # action coverage of the run (when TLC was asked for it): for trace validation these are the trace-spec disjuncts the
+        # REAL executions exercised - an action that never fires was never bound to the code by this run
+        cov = getattr(res, "coverage", None)
+        if cov:
+            agg = self.cov.setdefault("spec_actions_taken", {})
+            for k, v in cov.items():
+                agg[k] = agg.get(k, 0) + int(v)
+
     def count_eval(self, n: int = 1) -> None:
         self.cov["evaluations"] += n
 
